@@ -47,8 +47,25 @@ if not hasattr(_os, "_c03_real_fork"):
             while _os.path.exists("/proc/%%d" %% pid) and _time.monotonic() < limit:
                 _time.sleep(0.02)
             _ev("early_death", wpid=pid, reaped=not _os.path.exists("/proc/%%d" %% pid))
+            _c03_stale.append(pid)
         return pid
     _os.fork = _c03_fork
+    # safety net for the shared machine (pid_max is small here): should that pid number be handed to an unrelated process while a
+    # master still signals it, the signal is not sent and the master gets the answer it would get without the reuse
+    _c03_stale = []
+    _c03_real_kill = _os.kill
+    def _c03_kill(pid, sig):
+        if pid in _c03_stale and _os.getpid() == _c03_master:
+            try:
+                with open("/proc/%%d/stat" %% pid) as f:
+                    ppid = int(f.read().rsplit(")", 1)[1].split()[1])
+            except (OSError, ValueError, IndexError):
+                ppid = None
+            if ppid is not None and ppid != _c03_master:
+                _ev("foreign_pid_spared", wpid=pid, sig=int(sig))
+                raise ProcessLookupError(3, "No such process")
+        return _c03_real_kill(pid, sig)
+    _os.kill = _c03_kill
 """
 STALE_GRACE = 3         # as in the simulated part: seconds beyond `timeout` the master is given to drop a pid that no longer exists
 
@@ -164,9 +181,9 @@ def early_death(run, e4, sc):
         info["stale_pid"] = ev["wpid"]
         run.count("live_reaped_before_recorded")
         time.sleep(max(0.0, ev["t"] + tmo + STALE_GRACE - time.monotonic()))
-        w = wait_pool(e4, srv, nw, timeout=8.0)
+        w = wait_pool(e4, srv, nw, timeout=5.0)
         info["live"] = len(w)
-        info["healed_after_s"] = round(time.monotonic() - ev["t"], 1)
+        info["judged_after_s"] = round(time.monotonic() - ev["t"], 1)
         log = srv.error_log() + srv.stderr()
         info["timeout_scan_met_stale_pid"] = ("WORKER TIMEOUT (pid:%d)" % ev["wpid"]) in log
         if not e4.alive(srv.master_pid):
@@ -177,9 +194,9 @@ def early_death(run, e4, sc):
                       "real master: pid %d was reaped before the master recorded it; %.1f s later (timeout=%d) the master has %d live "
                       "workers %s, %d configured; WORKER TIMEOUT logged for that pid: %s" % (
                           ev["wpid"], time.monotonic() - ev["t"], tmo, len(w), w, nw, info["timeout_scan_met_stale_pid"])))
-        else:
-            run.count("live_stale_entry_dropped")
-            run.count("traces_validated_against_impl")
+            return v, None, info        # such a master goes on signalling a pid it does not own: stop it at once (cleanup)
+        run.count("live_stale_entry_dropped")
+        run.count("traces_validated_against_impl")
         z = zombies_of(e4, srv.master_pid)
         if z:
             time.sleep(1.5)
